@@ -578,3 +578,8 @@ PROPS["C04"]["proofs"] = PROPS["C04"]["proofs"] + ["Bmc.Proofs.EndToEnd.SessionC
 for _p in ("C04", "C09", "C11"):
     PROPS[_p]["claim"] += (" END TO END: composed with the regenerated loops' equality theorems the property theorems become statements about the code as "
                            "translated from the source on this run (Proofs/EndToEnd: generated_loop_…), with no hand model left in them.")
+for _p in ("C02", "C12"):
+    PROPS[_p]["proofs"] = PROPS[_p]["proofs"] + ["Bmc.Proofs.EndToEnd.HandshakeC02"]
+    PROPS[_p]["claim"] += (" END TO END: generated_newV2Session_sound (Proofs/EndToEnd/HandshakeC02.lean) — if newV2Session AS TRANSLATED FROM THE SOURCE ON THIS RUN "
+                           "returns a session, the Open Session Response confirmed exactly the proposal and the RAKP 2 code / RAKP 4 check value received ARE the keyed "
+                           "hashes of the exchange under the caller's password / the SIK, for every BMC, every draw and every option value.")
